@@ -126,3 +126,27 @@ Print Assumptions C05_identify_gen_reach.
 Print Assumptions C05_cfg_gen_identify.
 Print Assumptions C05_cfg_gen_prune_parse_teal.
 Print Assumptions C05_prune_gen_eq.
+
+(* ------------------------------------------------------------------------------------------------------------
+   Extension (call-graph printer regenerated: Lemmas/OutputGenLemmas.v) *)
+From Coq Require Import String List NArith ZArith Bool Arith.
+From Tealer Require Import Syntax Parse Cfg Analysis KeysGen Output OutputGen CfgLemmas SubLemmas GraphWf OutputLemmas OutputGenLemmas.
+
+(* regenerated call-graph printer: an edge f to g exactly when a retained callsub block of routine f targets g, names html-escaped as the source does *)
+Theorem C05_callgraph_gen_edges_exact :
+      forall (p : prog) (t : teal) (cn : string) (root : list string),
+       parse_teal p = Ok t ->
+       callgraph_exported t = true ->
+       exists (file : list string) (items : list item),
+         print_gen t cn root = Some (Written file items) /\
+         (forall x y : string,
+          In (ICgEdge x y) items <->
+          (exists fn g : string,
+             x = html_escape fn /\
+             y = html_escape g /\
+             (exists (c : nat) (b : block) (r : subroutine),
+                tblock t c = Some b /\
+                exit_op t b = Some (ICallsub g) /\ sub_of_block t c = Some r /\ s_name r = fn))).
+Proof. exact @print_gen_edges_exact. Qed.
+
+Print Assumptions C05_callgraph_gen_edges_exact.
